@@ -353,7 +353,8 @@ impl<'a> Socket<'a> {
     }
 
     pub(crate) fn process(&mut self, cx: &mut Context, ip_repr: &IpRepr, payload: &[u8]) {
-        debug_assert!(self.accepts(ip_repr));
+        // (The caller has checked `accepts`; for an IPv6 packet with a hop-by-hop header it did
+        // so with the upper-layer protocol, while `ip_repr` describes the packet as it arrived.)
 
         let header_len = ip_repr.header_len();
         let total_len = header_len + payload.len();
